@@ -942,8 +942,50 @@ def oracle_norm(case):
 _oracle_c16 = oracle
 
 
+def oracle_db_sequence(case):
+    """one opened database object used the way a synthesis cache is: look a table up (absent), add a circuit for it,
+    look it up again - by table, by label and through a don't-care model.  The answers after the addition must not
+    depend on the earlier miss"""
+    from cirbo.circuits_db.db import CircuitsDatabase
+    from cirbo.core.circuit import Circuit, gate as G
+    db = CircuitsDatabase()
+    db.open()
+    t = getattr(G, case['type'])
+    c = Circuit()
+    c.add_inputs(['a', 'b'])
+    c.emplace_gate('g', t, ('a', 'b'))
+    c.mark_as_output('g')
+    table = [list(r) for r in c.get_truth_table()]
+    label = ''.join(str(int(x)) for x in table[0])
+    try:
+        first = db.get_by_raw_truth_table(impl_table(table))
+        first_l = db.get_by_label(label)
+        db.get_by_raw_truth_table_model(impl_model_table([[None] + [int(x) for x in table[0][1:]]]))
+        if first is not None or first_l is not None:
+            return 'db-sequence: an empty database returned a circuit'
+        try:
+            db.add_circuit(c)
+        except Exception:  # noqa: BLE001
+            return None                     # not a normalised table: nothing to look up afterwards
+        again = db.get_by_raw_truth_table(impl_table(table))
+        again_l = db.get_by_label(label)
+        model = db.get_by_raw_truth_table_model(impl_model_table([[None] + [int(x) for x in table[0][1:]]]))
+    except Exception as e:  # noqa: BLE001
+        return f'db-sequence: raises {type(e).__name__}: {e}'
+    if again is None or again_l is None:
+        return (f'db-sequence: table {table} was looked up (absent), added with add_circuit and looked up again on the '
+                f'same object: the lookup still returns nothing')
+    if circuit_table(again) != [[int(x) for x in r] for r in table]:
+        return 'db-sequence: the circuit returned after add_circuit computes another table'
+    if model is None:
+        return 'db-sequence: the don\'t-care lookup misses the completion that was added after an earlier miss'
+    return None
+
+
 def oracle(case):  # noqa: F811 - extends the C16 oracle with the C17 kinds
     k = case['kind']
+    if k == 'db_sequence':
+        return oracle_db_sequence(case)
     if k == 'entry':
         return oracle_entry(case)
     if k == 'lookup':
